@@ -1101,6 +1101,59 @@ TARGETS.append(dict(
           "def readPayload_safe (data : Bytes) : Bool := true\n",
 ))
 
+# ---------------------------------------------------------------------------------------------- C06 / C04: fingerprint_http glue
+def _fh_read(fn, a, k, e):
+    if k or [ast.unparse(x) for x in a] != ["buffer"]:
+        raise NotTranslatable("read_payload call shape")
+    return fn.raising("(P0f.Gen.readPayload data)", "Tuple:Enum:Dir,Nat,List:Rec:Hdr", err="(Except.error ApiErr.packet)")
+
+
+def _fh_sig(fn, a, k, e):
+    if k or len(a) != 2:
+        raise NotTranslatable("HTTPPacketSignature(...) call shape")
+    v, tv = fn.expr(a[0], e)
+    h, th = fn.expr(a[1], e)
+    if tv != "Nat" or th != "List:Rec:Hdr":
+        raise NotTranslatable("HTTPPacketSignature(...) argument types")
+    return (f"({v}, {h})", "Tuple:Nat,List:Rec:Hdr")
+
+
+def _fh_find(fn, a, k, e):
+    # find_http_match(packet_signature, direction, options.database): the printed search on the HTTP records of that direction;
+    # an unloaded database (no such list) is the DatabaseError of iter_values
+    if k or len(a) != 3 or ast.unparse(a[2]) != "options.database":
+        raise NotTranslatable("find_http_match call shape")
+    ps, tps = fn.expr(a[0], e)
+    d, td = fn.expr(a[1], e)
+    if tps != "Tuple:Nat,List:Rec:Hdr" or td != "Enum:Dir":
+        raise NotTranslatable("find_http_match argument types")
+    return fn.raising(f"(match Db.iter db RecKind.http (some {d}) with | .ok l => some (P0f.Gen.findHttpMatch (l.filterMap DbRec.toHttpRec) {ps}.1 {ps}.2) | .error _ => none)",
+                      "Opt:Rec:HttpRec", err="(Except.error ApiErr.database)")
+
+
+def _fh_result(fn, a, k, e):
+    # HTTPResult(buffer, packet_signature, match); __post_init__ computes `dishonest` (the printed one)
+    if k or len(a) != 3 or ast.unparse(a[0]) != "buffer":
+        raise NotTranslatable("HTTPResult(...) call shape")
+    ps, tps = fn.expr(a[1], e)
+    m, tm = fn.expr(a[2], e)
+    if tps != "Tuple:Nat,List:Rec:Hdr" or tm != "Opt:Rec:HttpRec":
+        raise NotTranslatable("HTTPResult(...) argument types")
+    return (f"({ps}.1, {m}, P0f.Gen.dishonest {m} {ps}.2)", "Tuple:Nat,Opt:Rec:HttpRec,Bool")
+
+
+TARGETS.append(dict(
+    module="pyp0f.fingerprint.http", func="fingerprint_http", file="FingerprintHttp", lean="fingerprintHttp",
+    import_="P0f.Generated.Logic.ReadPayload\nimport P0f.Generated.Logic.FindHttpMatch\nimport P0f.Generated.Logic.HttpDishonest\nimport P0f.Model.Api", open="P0f P0f.Py",
+    pyparams=["buffer", "options"], params=[("db", "Db"), ("data", "Bytes")],
+    ret="Exc:Tuple:Nat,Opt:Rec:HttpRec,Bool", lean_ret="Except ApiErr (Nat × Option HttpRec × Bool)", err_ty="ApiErr",
+    err_default="(Except.error ApiErr.packet)", bytes_elem="Char",
+    env={"buffer": ("data", "Bytes")}, lean_types={"Bytes": "Bytes", "Rec:Hdr": "Hdr", "Rec:HttpRec": "HttpRec"},
+    calls={"read_payload": _fh_read, "HTTPPacketSignature": _fh_sig, "find_http_match": _fh_find, "HTTPResult": _fh_result},
+    alias="def fingerprintHttp (db : Db) (data : Bytes) : Except ApiErr (Nat × Option HttpRec × Bool) :=\n"
+          "  match P0f.apiFpHttp db data with | .ok r => .ok (r.2.1, r.2.2.1, r.2.2.2) | .error e => .error e\n",
+))
+
 # ---------------------------------------------------------------------------------------------- C18: the writers
 TARGETS.append(dict(
     module="pyp0f.net.layers.tcp.options", func="TCPOptions.dump", file="DumpLayout", lean="dumpLayout", import_="P0f.Model.TcpOptions", open="P0f",
